@@ -243,6 +243,37 @@ func randLine(r *hx.Rand, n int) []pos {
 
 // star-shaped ring around (lat0,lng0); nearly regular so that a disc of radius 0.55*radius lies inside
 func ring(r *hx.Rand, lat0, lng0 int64, radius float64, n int) []pos {
+	for {
+		ps := ringOnce(r, lat0, lng0, radius, n)
+		if wellSeparated(ps) {
+			return ps
+		}
+		radius *= 1.5 // resample, larger: E7 rounding must not merge vertices or flatten the ring
+	}
+}
+
+// wellSeparated: the E7 positions of the ring (closing position aside) are pairwise at least 8 units apart and
+// the ring spans at least 20 units in both directions.
+func wellSeparated(ps []pos) bool {
+	n := len(ps)
+	if n > 1 && ps[0] == ps[n-1] {
+		n--
+	}
+	minLat, maxLat, minLng, maxLng := ps[0].lat, ps[0].lat, ps[0].lng, ps[0].lng
+	for i := 0; i < n; i++ {
+		for j := i + 1; j < n; j++ {
+			dl, dg := ps[i].lat-ps[j].lat, ps[i].lng-ps[j].lng
+			if dl*dl+dg*dg < 64 {
+				return false
+			}
+		}
+		minLat, maxLat = min(minLat, ps[i].lat), max(maxLat, ps[i].lat)
+		minLng, maxLng = min(minLng, ps[i].lng), max(maxLng, ps[i].lng)
+	}
+	return maxLat-minLat >= 20 && maxLng-minLng >= 20
+}
+
+func ringOnce(r *hx.Rand, lat0, lng0 int64, radius float64, n int) []pos {
 	ps := make([]pos, n)
 	phase := float64(r.Intn(360)) * math.Pi / 180
 	for i := range ps {
@@ -338,7 +369,7 @@ func sizedPolygon(c *hx.Ctx, lat0, lng0 int64, allowBig bool) [][]pos {
 func randPolygon(c *hx.Ctx, lat0, lng0 int64, radius float64) [][]pos {
 	r := c.Rand
 	nh := 0
-	if r.Chance(1, 2) {
+	if r.Chance(1, 2) && radius >= 3000 { // a hole is 3-10 % of the radius: below ~90 E7 units it degenerates
 		nh = 1 + r.Intn(3)
 	}
 	n := 3 + r.Intn(7)
@@ -728,7 +759,14 @@ func found(f b6.Feature) string {
 						for j := 0; j < l.NumVertices(); j++ {
 							sum = sum.Add(l.Vertex(j).Vector)
 						}
-						if sum.Norm() > 1e-9 {
+						// only for a loop that is not degenerate at E7 (distinct, well separated vertices); a degenerate
+						// one keeps the vertex-cycle comparison only
+						e7s := make([]pos, l.NumVertices())
+						for j := range e7s {
+							ll := s2.LatLngFromPoint(l.Vertex(j))
+							e7s[j] = pos{e7(ll.Lat.Degrees()), e7(ll.Lng.Degrees())}
+						}
+						if sum.Norm() > 1e-9 && len(e7s) >= 3 && wellSeparated(e7s) {
 							wrongSide = !l.ContainsPoint(s2.Point{Vector: sum.Normalize()}) // the loop's own interior: holes do not matter
 						}
 						break
